@@ -118,6 +118,76 @@ def counterexample_strings(r, inst):
     return {k: to_string(inst, v) for k, v in found.items()}
 
 
+def conformance(chk, inst, aut, ids, wit, apath, nsim):
+    """TLC-simulated strings replayed into checksum / is_valid / calc_check_digit(s); TLC validates the
+    recorded results against the extracted automaton (clauses X1 X2 X3)."""
+    # conformance: TLC-simulated strings replayed into the code
+    rs = tlc.run('ChecksumStrings', workdir=chk.work, workers=1, env={'AUTOMATON_FILE': apath, 'ALGO': ''},
+                 simulate='num=%d' % nsim, depth=66, seed=chk.seed)
+    strings = []
+    seen = set()
+    for ln in rs.prints:
+        v = tlc.parse_value(ln)
+        if v and v[0] == 'STR' and tuple(v[1]) not in seen:
+            seen.add(tuple(v[1]))
+            strings.append(v[1])
+    if len(strings) < nsim:
+        raise run.MachineryError('string generator for %s produced %d strings\n%s' % (inst['name'], len(strings), rs.out[-1500:]))
+    # the witnesses of every state and the TLC counter-example classes are replayed as well
+    extra = [[inst['alphabet'].index(c) for c in w] for w in wit.values() if w]
+    if inst['luhn']:
+        a = len(inst['alphabet'])
+        for pre in ([], [1], [3, 4], [0, 1, 2]):
+            for post in ([], [5 % a], [1, 0]):
+                extra.append(pre + [0, a - 1] + post)
+                extra.append(pre + [a - 1, 0] + post)
+    events = []
+    mod, kw = inst['mod'], inst['kw']
+    A = inst['alphabet']
+    for syms in strings + extra:
+        s = ''.join(A[i] for i in syms)
+        rc = lib.call(mod.checksum, s, **kw)
+        if rc['k'] == 'ret':
+            val = json.loads(rc['j'])['int']
+            st = ids.get((int(val), len(s) % inst['period']), -1)
+        else:
+            st = -1
+        rv = lib.call(mod.is_valid, s, **kw)
+        rg = lib.call(getattr(mod, inst['gen']), s, **kw)
+        gen = [A.index(c) if c in A else -1 for c in lib.from_cps(rg['v'])] if rg['k'] == 'ret' and rg['t'] == 'str' else []
+        events.append({'s': syms, 'chk': st, 'valid': rv['b'] if rv['k'] == 'ret' and rv['t'] == 'bool' else False, 'gen': gen,
+                       'str': s})
+    epath = os.path.join(chk.work, 'conf_%s.ndjson' % inst['name'])
+    ipath = os.path.join(chk.work, 'conf_%s.index' % inst['name'])
+    with open(epath, 'w') as fh, open(ipath, 'w') as ih:
+        for t, e in enumerate(events, 1):
+            fh.write(json.dumps({'tid': t, 's': e['s'], 'chk': e['chk'], 'valid': e['valid'], 'gen': e['gen']}) + '\n')
+            ih.write(json.dumps([t, {'m': inst['name'], 'w': e['str'], 'how': 'conformance', 'site': 'checksum/is_valid/' + inst['gen']}]) + '\n')
+    shard = {'events': epath, 'index': ipath, 'n_events': len(events), 'n_traces': len(events)}
+    rej = chk.validate('Trace_Checksum', [shard], env={'AUTOMATON_FILE': apath, 'ALGO': ''}, label='conformance ' + inst['name'])
+    chk.report(rej)
+    return events
+
+
+def mc_extracted(chk, inst):
+    """Extract the implementation's automaton and model-check the product automaton on it."""
+    aut, ids, wit = extract(inst)
+    apath = os.path.join(chk.work, 'aut_%s.json' % inst['name'])
+    with open(apath, 'w') as fh:
+        json.dump(aut, fh)
+    for spec in (['MC_ChecksumPA'] + (['MC_ChecksumGenR2L'] if inst['dir'] == 'r2l' else [])):
+        r = chk.mc(spec, env={'AUTOMATON_FILE': apath, 'ALGO': ''}, workers=8, label='extracted ' + inst['name'])
+        if r.violated:
+            strs = counterexample_strings(r, inst)
+            conf = {}
+            for k, s in strs.items():
+                conf[k] = {'string': s, 'is_valid': lib.call(inst['mod'].is_valid, s, **inst['kw'])['b']}
+            chk.violation(r.violated, module=inst['name'], site='extracted automaton',
+                          witness=json.dumps(strs, sort_keys=True),
+                          detail={'invariant': r.violated, 'strings': conf, 'trace': r.counterexample[:3000]})
+    return aut, ids, wit, apath
+
+
 def main():
     chk = run.Check(PROP)
     quick = chk.tier == 'quick'
@@ -143,66 +213,8 @@ def main():
     # ---- extraction, MC on the extracted automaton, conformance
     n_strings = 0
     for inst in insts:
-        aut, ids, wit = extract(inst)
-        apath = os.path.join(chk.work, 'aut_%s.json' % inst['name'])
-        with open(apath, 'w') as fh:
-            json.dump(aut, fh)
-        for spec in (['MC_ChecksumPA'] + (['MC_ChecksumGenR2L'] if inst['dir'] == 'r2l' else [])):
-            r = chk.mc(spec, env={'AUTOMATON_FILE': apath, 'ALGO': ''}, workers=8, label='extracted ' + inst['name'])
-            if r.violated:
-                strs = counterexample_strings(r, inst)
-                conf = {}
-                for k, s in strs.items():
-                    conf[k] = {'string': s, 'is_valid': lib.call(inst['mod'].is_valid, s, **inst['kw'])['b']}
-                chk.violation(r.violated, module=inst['name'], site='extracted automaton',
-                              witness=json.dumps(strs, sort_keys=True),
-                              detail={'invariant': r.violated, 'strings': conf, 'trace': r.counterexample[:3000]})
-        # conformance: TLC-simulated strings replayed into the code
-        nsim = 40 if quick else 600
-        rs = tlc.run('ChecksumStrings', workdir=chk.work, workers=1, env={'AUTOMATON_FILE': apath, 'ALGO': ''},
-                     simulate='num=%d' % nsim, depth=66, seed=chk.seed)
-        strings = []
-        seen = set()
-        for ln in rs.prints:
-            v = tlc.parse_value(ln)
-            if v and v[0] == 'STR' and tuple(v[1]) not in seen:
-                seen.add(tuple(v[1]))
-                strings.append(v[1])
-        if len(strings) < nsim:
-            raise run.MachineryError('string generator for %s produced %d strings\n%s' % (inst['name'], len(strings), rs.out[-1500:]))
-        # the witnesses of every state and the TLC counter-example classes are replayed as well
-        extra = [[inst['alphabet'].index(c) for c in w] for w in wit.values() if w]
-        if inst['luhn']:
-            a = len(inst['alphabet'])
-            for pre in ([], [1], [3, 4], [0, 1, 2]):
-                for post in ([], [5 % a], [1, 0]):
-                    extra.append(pre + [0, a - 1] + post)
-                    extra.append(pre + [a - 1, 0] + post)
-        events = []
-        mod, kw = inst['mod'], inst['kw']
-        A = inst['alphabet']
-        for syms in strings + extra:
-            s = ''.join(A[i] for i in syms)
-            rc = lib.call(mod.checksum, s, **kw)
-            if rc['k'] == 'ret':
-                val = json.loads(rc['j'])['int']
-                st = ids.get((int(val), len(s) % inst['period']), -1)
-            else:
-                st = -1
-            rv = lib.call(mod.is_valid, s, **kw)
-            rg = lib.call(getattr(mod, inst['gen']), s, **kw)
-            gen = [A.index(c) if c in A else -1 for c in lib.from_cps(rg['v'])] if rg['k'] == 'ret' and rg['t'] == 'str' else []
-            events.append({'s': syms, 'chk': st, 'valid': rv['b'] if rv['k'] == 'ret' and rv['t'] == 'bool' else False, 'gen': gen,
-                           'str': s})
-        epath = os.path.join(chk.work, 'conf_%s.ndjson' % inst['name'])
-        ipath = os.path.join(chk.work, 'conf_%s.index' % inst['name'])
-        with open(epath, 'w') as fh, open(ipath, 'w') as ih:
-            for t, e in enumerate(events, 1):
-                fh.write(json.dumps({'tid': t, 's': e['s'], 'chk': e['chk'], 'valid': e['valid'], 'gen': e['gen']}) + '\n')
-                ih.write(json.dumps([t, {'m': inst['name'], 'w': e['str'], 'how': 'conformance', 'site': 'checksum/is_valid/' + inst['gen']}]) + '\n')
-        shard = {'events': epath, 'index': ipath, 'n_events': len(events), 'n_traces': len(events)}
-        rej = chk.validate('Trace_Checksum', [shard], env={'AUTOMATON_FILE': apath, 'ALGO': ''}, label='conformance ' + inst['name'])
-        chk.report(rej)
+        aut, ids, wit, apath = mc_extracted(chk, inst)
+        events = conformance(chk, inst, aut, ids, wit, apath, 40 if quick else 600)
         n_strings += len(events)
         if len(samples) < 6:
             samples.append({'algorithm': inst['name'], 'extracted_states': aut['nq'], 'accepting': len(aut['acc']),
